@@ -79,10 +79,15 @@ def run(ctx):
     for attempt in range(3):
         ttrace = os.path.join(ctx.scratch, 'c12t_%d.ndjson' % attempt)
         trep = os.path.join(ctx.scratch, 'c12t_%d.json' % attempt)
-        ctx.run_driver(drv, [ttrace, trep], timeout=1500, env={'VF_C12_MODE': 'transport'})
-        tr = vf.read_json(trep)
-        if tr.get('notes'):
-            raise vf.Inconclusive('transport driver note: %s' % tr['notes'][:2])
+        try:
+            ctx.run_driver(drv, [ttrace, trep], timeout=600, env={'VF_C12_MODE': 'transport'})
+            tr = vf.read_json(trep)
+            if tr.get('notes'):
+                raise vf.Inconclusive('transport driver note: %s' % tr['notes'][:2])
+        except vf.Inconclusive:
+            if ctx.violations:
+                break      # the server-side part already has a verdict; what breaks it may well make the transport unusable too
+            raise
         tlines = open(ttrace).read().splitlines()
         tv = vf.validate_trace(ctx, 'FlowLedger', 'Trace_C12.cfg', ttrace, 'trace_c12.ndjson', label='trace validation (flow ledger, client transport), recording %d' % (attempt + 1))
         tscen, tev = len(split(tlines)), len(tlines)
